@@ -98,9 +98,17 @@ func report(o *runOpts, P *Prog, results []*FuncResult, undecided []string, tLoa
 			}
 		}
 		for _, ob := range r.Vacuity {
-			if ob.Result != "sat" {
+			switch ob.Result {
+			case "sat":
+			case "unsat":
 				fmt.Printf("  VACUOUS %-58s %s (%s)\n", ob.Name, ob.Result, ob.Src)
-				undecided = append(undecided, "vacuity guard failed (contradictory precondition or unreachable exit): "+ob.Name)
+				undecided = append(undecided, "vacuity guard failed (contradictory precondition, unreachable exit or unreachable antecedent): "+ob.Name)
+			default:
+				// quantified contexts: the solver cannot exhibit a model; recorded, not a failure
+				r.VacuityUnknown++
+				if o.verbose {
+					fmt.Printf("  vacuity-unknown %-50s %s\n", ob.Name, ob.Result)
+				}
 			}
 		}
 		if o.verbose {
@@ -227,6 +235,11 @@ func writeEvidence(o *runOpts, P *Prog, results []*FuncResult, undecided []strin
 	cov["functions_under_contract"] = fnames
 	cov["int_mode"] = modes
 	cov["vacuity_guards_passed"] = nvac
+	nvu := 0
+	for _, r := range results {
+		nvu += r.VacuityUnknown
+	}
+	cov["vacuity_guards_undecided_by_solver"] = nvu
 	nslow := 0
 	for _, r := range results {
 		nslow += r.SkippedSlow
